@@ -2,32 +2,38 @@ package refterm
 
 // Caps is what this terminal advertises in its replies (DESIGN.md §2.2 c).
 type Caps struct {
-	RGB               bool // answers XTGETTCAP RGB
-	Smulx             bool // answers XTGETTCAP Smulx
-	VTE               bool // tertiary DA reply "~VTE"
-	Sync2026          bool // DECRQM 2026 -> supported
-	Unicode2027       bool // DECRQM 2027 -> supported
-	Color2031         bool // DECRQM 2031 -> supported, DSR 996 answered
-	InBand2048        bool // answers ?2048h with CSI 48 ; ... t
-	KittyKbd          bool // answers CSI ? u
-	KittyGfx          bool // answers APC G queries
-	SixelDA1          bool // 4 in DA1
-	XTSM              bool // XTSMGRAPHICS answered with status 0
-	OSC4              bool
-	OSC10             bool
-	OSC11             bool
-	OSC176            bool
-	AppID             string // application id before Vaxis starts
-	XTVersion         string // "" = no reply
-	ExplicitWidth     bool   // OSC 66 understood
-	Size14t           bool
-	Size18t           bool
-	DECRQSSCursor     bool
-	UserCursorStyle   int
-	CellW, CellH      int
-	DECRPMUnknownZero bool // answer DECRQM for unknown modes with status 0
-	OSC52             bool
-	Clipboard         string
+	RGB             bool // answers XTGETTCAP RGB
+	Smulx           bool // answers XTGETTCAP Smulx
+	VTE             bool // tertiary DA reply "~VTE"
+	Sync2026        bool // DECRQM 2026 -> supported
+	Unicode2027     bool // DECRQM 2027 -> supported
+	Color2031       bool // DECRQM 2031 -> supported, DSR 996 answered
+	InBand2048      bool // answers ?2048h with CSI 48 ; ... t
+	KittyKbd        bool // answers CSI ? u
+	KittyGfx        bool // answers APC G queries
+	SixelDA1        bool // 4 in DA1
+	XTSM            bool // XTSMGRAPHICS answered with status 0
+	OSC4            bool
+	OSC10           bool
+	OSC11           bool
+	OSC176          bool
+	AppID           string // application id before Vaxis starts
+	XTVersion       string // "" = no reply
+	ExplicitWidth   bool   // OSC 66 understood
+	Size14t         bool
+	Size18t         bool
+	DECRQSSCursor   bool
+	UserCursorStyle int
+	CellW, CellH    int
+	// DECRPMAbsent: how a DECRQM for a mode this terminal does not offer is
+	// answered: 0 = not at all, 1 = status 0 (not recognised), 2 = status 4
+	// (permanently reset: the mode is known and can never be set). None of
+	// them advertises the feature. A non-zero value also makes the terminal
+	// answer the other queries that have a negative form negatively instead of
+	// staying silent: XTSMGRAPHICS with an error status, XTGETTCAP with 0+r.
+	DECRPMAbsent int
+	OSC52        bool
+	Clipboard    string
 	// ColorDigits: hex digits per channel in colour replies; 0 or 4 = the
 	// usual doubled form (rgb:1a1a/2b2b/3c3c), 2 = rgb:1a/2b/3c (X11 allows 1-4)
 	ColorDigits int
